@@ -167,7 +167,7 @@ def run(ctx, chk):
     # B05.1 Database::flush
     anchors.check(ctx, chk, ['regions_sync', 'regions_flush', 'write_if_dirty', 'regions_write_at', 'write_to_mmap', 'db_write', 'db_copy', 'mark_dirty', 'mark_dirty_abs', 'take_dirty', 'remove_region_pending', 'promote_reads_pending', 'promote_inserts', 'punch'])
     def _commits(body, b, t):
-        cs = O.sites(body, M(r"rawdb::region_metadata::RegionMetadata::mark_clean"))
+        cs = O.sites(body, MARK_CLEAN)
         return bool(cs) and O.can_reach(body, b, cs)
     committing_sync = M(r"rawdb::regions::Regions::sync_data", reach=True, where=_commits,
                         label="Regions::sync_data (on a path that marks dirty regions clean)")
